@@ -777,8 +777,13 @@ func (x *Xlat) sliceExpr(st *State, fr *Frame, out *Outcomes, e *ast.SliceExpr) 
 
 // allocation ---------------------------------------------------------------
 
-func (x *Xlat) allocRef(st *State, base string) *Term {
+func (x *Xlat) allocRef(st *State, base string, t types.Type) *Term {
 	r := x.ctx.Fresh(base, SRef)
+	if t != nil {
+		if tag := x.typeTag(t); tag != nil {
+			st.assume(Eq(App("dtype", SInt, r), tag))
+		}
+	}
 	al := x.get(st, allocKey, ArrSort(SRef, SBool))
 	st.assume(Not(Sel(al, r)))
 	st.assume(Not(Eq(r, TNull)))
@@ -852,7 +857,7 @@ func (x *Xlat) compositeLit(st *State, fr *Frame, out *Outcomes, e *ast.Composit
 		if !addr {
 			return val
 		}
-		r := x.allocRef(st, "new$"+sanitize(typeName(t)))
+		r := x.allocRef(st, "new$"+sanitize(typeName(t)), types.NewPointer(t))
 		x.store(st, out, PHeap{r, t, nil, t}, val, e.Pos())
 		return r
 	case *types.Array:
@@ -902,7 +907,7 @@ func (x *Xlat) compositeLit(st *State, fr *Frame, out *Outcomes, e *ast.Composit
 		}
 		return res
 	case *types.Map:
-		m := x.allocRef(st, "map")
+		m := x.allocRef(st, "map", t)
 		x.initMap(st, m, u)
 		for _, el := range e.Elts {
 			kv := el.(*ast.KeyValueExpr)
